@@ -780,8 +780,8 @@ pub fn r_exec_def(o: &mut Out, d: &MExecDef) {
                 // commas between targets are insignificant; canonical form uses ", "
             }
             o.name("from");
-            let lit = quote_plain(&i.path);
-            o.tok_kind(&lit, TokKind::Str);
+            // a quoted string with random escape spellings (never a block string: the statement is one line)
+            o.string(&i.path, false);
             o.in_import = false;
             o.push_raw("\n");
             o.prev = None;
